@@ -110,6 +110,8 @@ def toml_text(table, mode='table'):
 def mkfile(path, obj, style=0, toml_mode='table'):
     """A case file entry: the path, the text written, the payload it denotes."""
     if path == 'pyproject.toml':
+        if obj is None and toml_mode == 'table':
+            toml_mode = ('notool', 'othertool', 'empty')[style % 3]
         text = toml_text(obj, toml_mode)
         payload = payload_wire(obj if toml_mode == 'table' else None)
     else:
@@ -238,10 +240,6 @@ def build_case(tag, env, spec, contents, rng=None, dirs=None, toml_modes=None):
 # --------------------------------------------------------------------------
 
 LOCS = ['ca', 'cb', 'user', 'pyproject', 'local']
-
-
-def loc_paths(spec_order_env):
-    return None
 
 
 def subset_cases(rng, res, with_global):
@@ -450,10 +448,20 @@ def model_request(case):
         'files': [[f['path'], f['payload']] for f in case['files']]})
 
 
+def sort_dicts(w):
+    """Key order inside a mapping is not an observable of the property (and the toml writer
+    reorders sub-tables): sort every dict by canonical key text, recursively."""
+    if isinstance(w, list):
+        return [sort_dicts(x) for x in w]
+    if isinstance(w, dict) and 'd' in w:
+        return {'d': sorted(([sort_dicts(k), sort_dicts(v)] for k, v in w['d']), key=lambda kv: canon(kv[0]))}
+    return w
+
+
 def norm_model(m):
-    props = {k: v for k, v in m['state']['scalars']}
+    props = {k: sort_dicts(v) for k, v in m['state']['scalars']}
     for name, d in m['state']['dicts']:
-        props[name] = {'d': d}
+        props[name] = sort_dicts({'d': d})
     err = m['err']
     if err is not None:
         e = {'type': err['name'], 'kind': err['kind'] if err['kind'] != 'dictUpdate' else 'other'}
@@ -478,7 +486,8 @@ def norm_impl(o):
         if err.get('keys') is not None:
             e['keys'] = err['keys']
         err = e
-    out = {'err': err, 'props': o['props'], 'skip_init': o['skip_init'], 'loaded': o['loaded']}
+    out = {'err': err, 'props': {k: sort_dicts(v) for k, v in o['props'].items()}, 'skip_init': o['skip_init'],
+           'loaded': o['loaded']}
     if o.get('calls') is not None:
         out['calls'] = o['calls']
     return out
@@ -535,7 +544,6 @@ def judge(case, obs):
             continue
         if pl['kind'] == 'nonmap':
             must_reject = ('non_mapping_rejected', f"{p} is a {'truthy' if pl['truthy'] else 'falsy'} non-mapping file")
-            sig_extra = {'truthy': pl['truthy']}
         elif pl['kind'] == 'map' and any(k not in DEFAULTS for k, _ in pl['kvs']):
             must_reject = ('unknown_rejected', f'{p} has an unknown setting')
     if must_reject:
